@@ -569,22 +569,9 @@ func generateKeyPairRule(P *Program, R *Report) {
 			okT = t.equal(termFn("Mod", tmul(tsym(rr), tsym(rr)), tsym("arg#0")))
 		}
 		R.decide(rule, "common.RandomQR:square", "RandomQR returns r^2 mod n", okT, "got "+gotT, P.Pos(rq.Pos()))
-		mp(P, R, rule, "common.RandomQR:unit", "…only for r with gcd(r, n) == 1", rq, AcceptAny(), &MustPass{Match: func(a Atom) bool {
-			x, y, ok := parseEq(a)
-			if !ok {
-				return false
-			}
-			for _, pr := range [][2]ssa.Value{{x, y}, {y, x}} {
-				if c, isC := pr[0].(*ssa.Call); isC && bigMethod(c) == "GCD" {
-					if k, isK := pr[1].(*ssa.Call); isK && isCallTo(k, "big.NewInt") {
-						if v, okv := constInt(k.Call.Args[0]); okv && v == 1 {
-							return true
-						}
-					}
-				}
-			}
-			return false
-		}})
+		rr := tsym("call:common.FastRandomBigInt(arg#0)")
+		mp(P, R, rule, "common.RandomQR:unit", "…only for r with gcd(r, n) == 1", rq, AcceptAny(),
+			&MustPass{Match: eqTermMatcher(brq, termFn("GCD", rr, tsym("arg#0")), tconst(1))})
 	}
 }
 
